@@ -509,10 +509,11 @@ class EditCollection(AbstractCompoundEdit, Generic[C]):
             total_cost = sum(e.bounds() for e in self._sub_edits)
         else:
             # We have not yet expanded all of the sub-edits
+            # Until every sub-edit is known, only the a-priori upper bound is certain: the sub-edits still to come have
+            # an unknown cost, and an expanded sub-edit's own initial upper bound may exceed what this bound allotted
             total_cost = Range(0, self._cost_upper_bound)
             for e in self._sub_edits:
                 total_cost.lower_bound += e.bounds().lower_bound
-                total_cost.upper_bound -= e.initial_bounds.upper_bound - e.bounds().upper_bound
         if total_cost.lower_bound > super().bounds().upper_bound:
             self.valid = False
             return Range()
